@@ -1,6 +1,6 @@
 """C37 - the inner ring approves container changes only when the owner authorised them.
 
-1. TLC exhaustive on spec/ContainerProc.tla over 205 800 abstract requests (operation x authorisation kind
+1. TLC exhaustive on spec/ContainerProc.tla over 205 800 (thorough; 86 280 quick) abstract requests (operation x authorisation kind
    x every combination of token facts x container / eACL facts), in both worlds of the deviation switch:
    BugH13=FALSE (repaired verifySessionV2): code-shaped ApproveCode implies the listed property everywhere;
    BugH13=TRUE (code as it is): it does so except for the H13 class.
@@ -26,8 +26,9 @@ def abstract_class(r):
 
 
 def run(ck):
-    ck.tlc_model("ContainerProc", "ContainerProc_fixed.cfg", timeout=1200, workers=4, heap="3g")
-    ck.tlc_model("ContainerProc", "ContainerProc_asis.cfg", timeout=1200, workers=4, heap="3g")
+    sfx = "" if ck.tier == "thorough" else "_quick"   # quick: eACL part of createV2 with good / single-fault authorisations only
+    ck.tlc_model("ContainerProc", "ContainerProc_fixed%s.cfg" % sfx, timeout=1500, workers=4, heap="3g")
+    ck.tlc_model("ContainerProc", "ContainerProc_asis%s.cfg" % sfx, timeout=1500, workers=4, heap="3g")
     ck.setcov("exhaustive", True)
     binp = ck.gobuild("irproc")
     cases = os.path.join(ck.tmp, "c37_cases.ndjson")
